@@ -115,7 +115,7 @@ def load_known():
 
 
 def write_replay(prop, seed, n, payload):
-    d = os.path.join(C.VERIF, 'replays')
+    d = os.path.join(C.OUT, 'replays')
     os.makedirs(d, exist_ok=True)
     path = os.path.join(d, '%s_seed%d_%d.json' % (prop, seed, n))
     with open(path, 'w') as f:
@@ -264,8 +264,8 @@ def main(argv=None):
         wall_s=round(time.time() - t0, 2),
         violations=len(real) + (1 if (broken and not real) else 0),
     )
-    os.makedirs(os.path.join(C.VERIF, 'evidence'), exist_ok=True)
-    with open(os.path.join(C.VERIF, 'evidence', prop + '.json'), 'w') as f:
+    os.makedirs(os.path.join(C.OUT, 'evidence'), exist_ok=True)
+    with open(os.path.join(C.OUT, 'evidence', prop + '.json'), 'w') as f:
         json.dump(ev, f, indent=1, sort_keys=True)
     print('%s %s: %d/%d obligations, %d cases (%d distinct non-trivial), %d violations, %.1fs'
           % (prop, tier, info['discharged'], info['obligations'], out.evaluations,
